@@ -344,20 +344,120 @@ def e2e(ctx, rng, gs, n_reps):
                                   "row %d of the multi-direction estimate differs from the single-direction estimate" % d,
                                   dict(entry="vario_estimate", tol=tol, duplicate=dup, arrays=describe(f[0], edges, ppos, dirs)), key=key)
                     break
-    for rep in range(3 * n_reps):
+    # general direction sets (acute / obtuse / opposite vectors, 1-4 directions, overlapping or not, unnormalised vectors,
+    # bandwidth, the `angles` argument): every row must be the independent enumeration for that direction
+    for rep in range(10 * n_reps):
+        dim = int(rng.integers(2, 4))
+        n = int(rng.choice([6, 10, 16]))
+        pos = rng.normal(size=(dim, n)) * 2          # continuous coordinates: no coincident points
+        nf = int(rng.integers(1, 3))
+        f = rng.normal(size=(nf, n))
+        if rng.random() < 0.4:
+            f[rng.random(size=f.shape) < 0.15] = np.nan
+        edges = gen_edges(rng, int(rng.integers(2, 5)), first_zero=bool(rng.random() < 0.5))
+        est = "matheron" if rng.random() < 0.6 else "cressie"
+        nd = int(rng.integers(1, 5))
+        style = ["random", "fan", "opposite", "wrap"][int(rng.integers(4))]
+        if style == "opposite":
+            nd = max(2, min(nd, 3))
+        wrap_tol = None
+        if style == "wrap":
+            # first and last direction nearly the same axis, neighbours well separated
+            nd = 3
+            a = rng.uniform(0, np.pi)
+            delta = rng.uniform(0.05, 0.3)
+            if dim == 2:
+                angs3 = np.array([a, a + np.pi / 2, a + np.pi - delta])
+                wdirs = np.stack([np.cos(angs3), np.sin(angs3)], axis=1)
+            else:
+                q, _ = np.linalg.qr(rng.normal(size=(3, 3)))
+                wdirs = np.array([q[0], q[1], -np.cos(delta) * q[0] + np.sin(delta) * q[2]])
+            wrap_tol = float(rng.uniform(0.2, 0.6))
+        if style == "fan" and dim == 2:
+            base = rng.uniform(0, np.pi)
+            step = rng.uniform(0.15, 1.4)
+            angs = base + step * np.arange(nd) * rng.choice([1, -1])
+            dirs = np.stack([np.cos(angs), np.sin(angs)], axis=1)
+        else:
+            dirs = rng.normal(size=(nd, dim))
+            if style == "opposite" and nd >= 2:
+                dirs[1] = -dirs[0] + 0.35 * rng.normal(size=dim)
+        if style == "wrap":
+            dirs = wdirs
+        dirs = dirs * rng.uniform(0.5, 3.0, size=(nd, 1))          # not normalised on purpose
+        unit = dirs / np.linalg.norm(dirs, axis=1)[:, None]
+        tol = float(rng.uniform(0.08, np.pi / 2))
+        if nd >= 2 and rng.random() < 0.75:
+            # put the tolerance just below half of a characteristic angle of the direction set, so that the
+            # "are the cones separated?" decision is exercised on both sides and for several notions of angle
+            dots = unit @ unit.T
+            iu = np.triu_indices(nd, 1)
+            axis_all = np.arccos(np.minimum(np.abs(dots[iu]), 1.0))
+            axis_consec = np.arccos(np.minimum(np.abs(np.sum(unit[:-1] * unit[1:], axis=1)), 1.0))
+            oriented = np.arccos(np.clip(dots[iu], -1.0, 1.0))
+            cand = [axis_all.min(), axis_consec.min(), oriented.min(), axis_all.max()]
+            tol = float(np.clip(0.5 * cand[int(rng.integers(len(cand)))] * rng.choice([0.9, 1.1]), 0.06, np.pi / 2))
+        if wrap_tol is not None:
+            tol = wrap_tol
+        bw = None if rng.random() < 0.6 else float(rng.uniform(0.5, 3.0))
+        ctx.count(("e2e-general-dirs", dim, n, nd, style, est, bw is None), hist=dict(entry="vario_estimate-dirs", dim=dim, nd=nd, style=style))
+        ctx.sample(dict(entry="vario_estimate", directions=dirs.tolist(), angles_tol=tol, bandwidth=bw, n=n, dim=dim))
+        try:
+            _, g, c = gs.vario_estimate(tuple(pos), f if nf > 1 else f[0], edges, estimator=est, direction=dirs,
+                                        angles_tol=tol, bandwidth=bw, return_counts=True)
+        except Exception as e:
+            ctx.violation("probe: vario_estimate with directions raised", repr(e),
+                          dict(entry="vario_estimate", arrays=describe(f, edges, pos, dirs), tol=tol, bw=bw), key="vario_estimate:dirs-exception")
+            continue
+        g = np.atleast_2d(g); c = np.atleast_2d(c)
+        bg, bcnt = brute_unstructured(f, edges, pos, est[0], direction=unit, tol=tol, bw=-1.0 if bw is None else bw, separate=False)
+        if not ((bcnt == c).all() and rel_close(bg, g)) and not near_edge(pos, edges, "e", unit, tol, -1.0 if bw is None else bw):
+            ctx.violation("probe: vario_estimate (direction set) vs per-direction pair enumeration",
+                          "a row of the multi-direction estimate differs from enumerating the pairs of that direction",
+                          dict(entry="vario_estimate", est=est, tol=tol, bw=bw, style=style, arrays=describe(f, edges, pos, dirs),
+                               expected_counts=bcnt.tolist(), got_counts=c.tolist()), key="vario_estimate:direction-set")
+    # the `angles` argument (2-D azimuth, 3-D azimuth + inclination)
+    for rep in range(2 * n_reps):
+        dim = int(rng.integers(2, 4))
+        n = 9
+        pos = rng.normal(size=(dim, n)) * 2
+        f = rng.normal(size=(1, n))
+        edges = gen_edges(rng, 3, first_zero=True)
+        ang = rng.uniform(-np.pi, np.pi, size=dim - 1)
+        tol = float(rng.uniform(0.2, 1.2))
+        if dim == 2:
+            unit = np.array([[np.cos(ang[0]), np.sin(ang[0])]])
+        else:
+            unit = np.array([[np.cos(ang[0]) * np.sin(ang[1]), np.sin(ang[0]) * np.sin(ang[1]), np.cos(ang[1])]])
+        ctx.count(("e2e-angles", dim), hist=dict(entry="vario_estimate-angles", dim=dim))
+        _, g, c = gs.vario_estimate(tuple(pos), f[0], edges, angles=ang, angles_tol=tol, return_counts=True)
+        bg, bcnt = brute_unstructured(f, edges, pos, "m", direction=unit, tol=tol, bw=-1.0, separate=False)
+        if not ((bcnt[0] == c).all() and rel_close(bg[0], g)) and not near_edge(pos, edges, "e", unit, tol, -1.0):
+            ctx.violation("probe: vario_estimate(angles=...) vs pair enumeration along the documented direction",
+                          "angles argument does not select the documented direction",
+                          dict(entry="vario_estimate", angles=ang.tolist(), tol=tol, arrays=describe(f, edges, pos)), key="vario_estimate:angles")
+    for rep in range(8 * n_reps):
         shape = tuple(int(x) for x in rng.integers(2, 7, size=int(rng.integers(1, 4))))
         fld = rng.normal(size=shape)
         axis = int(rng.integers(len(shape)))
         est = "matheron" if rng.random() < 0.5 else "cressie"
-        masked = rng.random() < 0.6
-        ctx.count(("axis", shape, axis, est, masked), hist=dict(entry="vario_estimate_axis", dim=len(shape)))
-        if masked:
-            m = rng.random(size=shape) < 0.25
-            inp = np.ma.array(fld, mask=m)
-        else:
+        masked = rng.random() < 0.7
+        missing = ["none", "nan", "no_data"][int(rng.integers(3))]
+        ctx.count(("axis", shape, axis, est, masked, missing), hist=dict(entry="vario_estimate_axis", dim=len(shape), masked=masked, missing=missing))
+        m = (rng.random(size=shape) < 0.25) if masked else np.zeros(shape, bool)
+        miss = (rng.random(size=shape) < 0.2) if missing != "none" else np.zeros(shape, bool)
+        data = fld.copy()
+        kw = {}
+        if missing == "nan":
+            data[miss] = np.nan
+        elif missing == "no_data":
+            data[miss] = -999.0
+            kw["no_data"] = -999.0
+        inp = np.ma.array(data, mask=m) if masked else data
+        g = gs.vario_estimate_axis(inp, direction=axis, estimator=est, **kw)
+        m = m | miss
+        if not m.any():
             m = None
-            inp = fld
-        g = gs.vario_estimate_axis(inp, direction=axis, estimator=est)
         f2 = np.swapaxes(fld, 0, axis).reshape(shape[axis], -1)
         m2 = None if m is None else np.swapaxes(m, 0, axis).reshape(shape[axis], -1)
         if not rel_close(brute_axis(f2, m2, est[0]), g):
